@@ -9,3 +9,4 @@ import NormModel.Properties.C08
 #print axioms Norm.C08.catalogue_keys_nodup
 #print axioms Norm.C08.catalogue_texts_distinct
 #print axioms Norm.C08.lexer_diags_have_highlight
+#print axioms Norm.C08.lexer_diag_inside_file
